@@ -269,3 +269,394 @@ def views(w, cfg):
             canary=True)
     # a second observation (now through the cached view objects) must give the same answers
     observe(w, s, 'obs2', single=single, units=())
+
+
+# --------------------------------------------------------------------------- group 2: the dictionary views themselves (loop-free)
+
+def dict_configs(tier):
+    out = []
+    for kind in ['mass', 'vol-fixed-phase', 'vol-phase-container']:
+        for op in ['read', 'setitem', 'pop', 'popitem', 'delitem', 'clear', 'setdefault-missing', 'setdefault-present', 'update']:
+            out.append({'name': f'{kind};op={op}', 'kind': kind, 'op': op, 'hist': 'fresh'})
+    for hist in ['cached-same-TP', 'cached-then-T', 'cached-then-P', 'cached-then-phase', 'cached-then-T-and-back']:
+        for op in ['read', 'setitem']:
+            for kind in ['vol-fixed-phase', 'vol-phase-container']:
+                if hist == 'cached-then-phase' and kind == 'vol-fixed-phase':
+                    continue
+                out.append({'name': f'{kind};op={op};hist={hist}', 'kind': kind, 'op': op, 'hist': hist})
+    return out
+
+
+FUNCS_DICT = ['thermosteam.base.dictionary_view:DictionaryView.' + m for m in
+              ('__iter__', '__len__', '__bool__', '__contains__', '__delitem__', '__getitem__', '__setitem__', 'keys', 'items',
+               'values', 'clear', 'copy', 'get', 'pop', 'popitem', 'setdefault', 'update')] + [
+    'thermosteam.base.dictionary_view:MassFlowDict.input', 'thermosteam.base.dictionary_view:MassFlowDict.output',
+    'thermosteam.base.dictionary_view:VolumetricFlowDict.input', 'thermosteam.base.dictionary_view:VolumetricFlowDict.output',
+    'thermosteam._thermal_condition:ThermalCondition.in_equilibrium']
+
+
+@group('C11/view_dicts', configs=dict_configs, functions=FUNCS_DICT, assumptions=ASSUME, loop_free=True)
+def view_dicts(w, cfg):
+    """
+    `view[k]` is `factor_k * dct[k]` for every stored key at the moment of the call, where factor_k is MW_k resp.
+    1000*V_k(phase_now, T_now, P_now); every dict method is the dict method of the molar dict seen through
+    that factor; writes store value/factor_k; whatever was read before (per-index cache) must not matter.
+    """
+    from thermosteam._phase import Phase
+    size = 4
+    IDs = ['c0', 'c1', 'c2', 'c3']
+    dct = {0: w.real('n0', nonzero=True), 2: w.real('n2', nonzero=True), 3: w.real('n3', nonzero=True)}
+    T0 = w.real('T', lo=0, lo_strict=True); P0 = w.real('P', lo=0, lo_strict=True)
+    Ts = [T0]; Ps = [P0]
+    if cfg['kind'] == 'mass':
+        MW = [w.real(f'MW{i}', lo=0, lo_strict=True) for i in range(size)]
+        view = MassFlowDict(dct, MW)
+        factor = lambda k: MW[k]
+    else:
+        class C: pass
+        chems = []
+        for i, ID in enumerate(IDs):
+            c = C(); c.ID = ID
+            plant_V(w, c, single=(i == 3))          # index 3: one phase-independent model (not a PhaseHandle)
+            chems.append(c)
+        TP = tmo.ThermalCondition(T0, P0)
+        container = Phase('l')
+        if cfg['kind'] == 'vol-fixed-phase':
+            view = VolumetricFlowDict(dct, TP, [c._V for c in chems], 'g', None, {})
+            phase_now = lambda: 'g'
+        else:
+            view = VolumetricFlowDict(dct, TP, [c._V for c in chems], None, container, {})
+            phase_now = lambda: container._phase
+        factor = lambda k: 1000. * _Vfn(w, IDs[k], phase_now(), k == 3)(TP._T, TP._P)
+        hist = cfg['hist']
+        if hist != 'fresh':
+            for k in list(dct): view[k]                       # fills the per-index cache at (T0, P0, 'l')
+            view[0] = w.real('m_prev', lo=0, lo_strict=True)    # and a write through the view
+            if hist in ('cached-then-T', 'cached-then-T-and-back'):
+                T1 = w.real('T1', lo=0, lo_strict=True); Ts.append(T1); distinct(w, Ts)
+                TP._T = T1
+                if hist == 'cached-then-T-and-back':
+                    view[2]                                   # cache of index 2 now at T1, the others still at T0
+                    TP._T = T0
+            elif hist == 'cached-then-P':
+                P1 = w.real('P1', lo=0, lo_strict=True); Ps.append(P1); distinct(w, Ps)
+                TP._P = P1
+            elif hist == 'cached-then-phase':
+                container.phase = 'g'
+    old = dict(dct)
+    op = cfg['op']
+    keys = sorted(old)
+
+    def ok_others(skip=()):
+        return w.And(set(dct) == set(old) - set(skip) | (set(dct) & set(skip)),
+                     *[w.eq(dct[k], old[k]) for k in old if k not in skip and k in dct])
+
+    if op == 'read':
+        for k in keys:
+            w.ensure(f'view[{k}] = factor*mol', w.eq(view[k], factor(k) * old[k]))
+            w.ensure(f'get({k}) = factor*mol', w.eq(view.get(k), factor(k) * old[k]))
+        w.ensure('get(missing) = default', view.get(1) is None and view.get(1, 0.) == 0.)
+        try:
+            view[1]; raised = False
+        except KeyError:
+            raised = True
+        w.ensure('view[missing] raises KeyError', raised)
+        w.ensure('iter/len/bool/contains/keys mirror the molar dict',
+                 list(view) == keys and len(view) == 3 and bool(view) and (2 in view) and (1 not in view) and list(view.keys()) == keys)
+        items = list(view.items()); values = list(view.values()); cp = view.copy()
+        w.ensure('items() = (key, factor*mol)', w.And([k for k, _ in items] == keys, *[w.eq(v, factor(k) * old[k]) for k, v in items]))
+        w.ensure('values() = factor*mol', w.And(len(values) == 3, *[w.eq(v, factor(k) * old[k]) for k, v in zip(keys, values)]))
+        w.ensure('copy() = plain dict of factor*mol', w.And(type(cp) is dict and sorted(cp) == keys, *[w.eq(cp[k], factor(k) * old[k]) for k in keys]))
+        w.ensure('reading leaves the molar dict unchanged', ok_others())
+        w.canary('canary: view[0] = mol', w.eq(view[0], old[0]))
+    elif op == 'setitem':
+        m = w.real('m', lo=0, lo_strict=True)
+        view[2] = m
+        view[1] = m
+        w.ensure('after view[k] = m: mol[k] = m / factor (stored key)', w.eq(dct[2] * factor(2), m))
+        w.ensure('after view[k] = m: mol[k] = m / factor (new key)', w.And(1 in dct, w.eq(dct.get(1, 0.) * factor(1), m)))
+        w.ensure('write then read returns the written value', w.And(w.eq(view[2], m), w.eq(view[1], m)))
+        w.ensure('other entries unchanged', ok_others(skip=(1, 2)))
+        w.canary('canary: mol[k] = m', w.eq(dct[2], m))
+    elif op == 'pop':
+        r = view.pop(2)
+        w.ensure('pop(k) returns factor*mol and removes k', w.And(w.eq(r, factor(2) * old[2]), 2 not in dct))
+        w.ensure('other entries unchanged', ok_others(skip=(2,)))
+        w.canary('canary: pop returns mol', w.eq(r, old[2]))
+    elif op == 'popitem':
+        r = view.popitem()
+        last = keys[-1]
+        w.ensure('popitem() returns factor*mol of the removed (last) key', w.And(w.eq(r, factor(last) * old[last]), last not in dct))
+        w.ensure('other entries unchanged', ok_others(skip=(last,)))
+        w.canary('canary: popitem returns mol', w.eq(r, old[last]))
+    elif op == 'delitem':
+        del view[0]
+        w.ensure('del view[k] removes k only', w.And(0 not in dct, ok_others(skip=(0,))))
+        w.canary('canary: nothing deleted', 0 in dct)
+    elif op == 'clear':
+        view.clear()
+        w.ensure('clear() empties the molar dict', len(dct) == 0 and not view)
+        w.canary('canary: clear keeps entries', len(dct) == 3)
+    elif op == 'setdefault-missing':
+        m = w.real('m', lo=0, lo_strict=True)
+        view.setdefault(1, m)
+        w.ensure('setdefault(missing, m) writes m through the view', w.And(1 in dct, w.eq(dct.get(1, 0.) * factor(1), m), ok_others(skip=(1,))))
+        w.canary('canary: stores m as mol', w.eq(dct.get(1, 0.), m))
+    elif op == 'setdefault-present':
+        m = w.real('m', lo=0, lo_strict=True)
+        view.setdefault(2, m)
+        w.ensure('setdefault(present, m) changes nothing', ok_others())
+        w.canary('canary: overwrites', w.eq(dct[2] * factor(2), m))
+    elif op == 'update':
+        m1 = w.real('m1', lo=0, lo_strict=True); m2 = w.real('m2', lo=0, lo_strict=True)
+        view.update({1: m1, 2: m2})
+        w.ensure('update writes every item through the view',
+                 w.And(w.eq(dct.get(1, 0.) * factor(1), m1), w.eq(dct[2] * factor(2), m2), w.eq(view[1], m1), w.eq(view[2], m2), ok_others(skip=(1, 2))))
+        w.canary('canary: update stores mol', w.eq(dct[2], m2))
+    if cfg['kind'] != 'mass':
+        # representation invariant of the per-index cache: an entry that is "in equilibrium" with the live TP holds
+        # 1000*V_i(phase_now, T_now, P_now)
+        cs = []
+        for i, (TPc, Vc) in view.cache.items():
+            same = w.And(w.eq(TPc._T, TP._T), w.eq(TPc._P, TP._P))
+            cs.append(w.Implies(same, w.eq(Vc, factor(i))))
+        w.ensure('cache invariant: cached volume valid for the live (phase, T, P)', w.And(*cs))
+        w.ensure('T, P not changed by the view', w.And(w.eq(TP._T, Ts[-1] if cfg['hist'] != 'cached-then-T-and-back' else T0), w.eq(TP._P, Ps[-1])))
+
+
+# --------------------------------------------------------------------------- group 3: unit factors and rejected dimensions
+
+def unit_configs(tier):
+    return [{'name': f'kind={k}', 'kind': k} for k in (['l', 'gl'] if tier == 'quick' else ['l', 'g', 'gl', 'gls'])]
+
+
+@group('C11/units', configs=unit_configs, assumptions=ASSUME, loop_free=True,
+       functions=['thermosteam._stream:Stream._get_flow_name_and_factor', 'thermosteam.units_of_measure:AbsoluteUnitsOfMeasure.conversion_factor',
+                  'thermosteam._stream:Stream.get_flow', 'thermosteam._stream:Stream.set_flow', 'thermosteam._stream:Stream.get_total_flow',
+                  'thermosteam._stream:Stream.set_total_flow', 'thermosteam.indexer:Indexer.get_data', 'thermosteam.indexer:Indexer.set_data',
+                  'thermosteam.indexer:Indexer.get_conversion_factor'])
+def units(w, cfg):
+    """Each supported unit maps to the right view with the fixed factor; other dimensions are rejected and nothing changes."""
+    W.reset_caches()
+    s, _ = mk(w, 's', cfg['kind'], 'A', 'all-pos')
+    multi = isinstance(s, tmo.MultiStream)
+    key = (s.phases[0], 'Water') if multi else 'Water'
+    for u, (name, const) in TEXTBOOK.items():
+        got_name, got = type(s)._get_flow_name_and_factor(u)
+        again = type(s)._get_flow_name_and_factor(u)          # second call is served from Stream._flow_cache
+        w.ensure(f'units {u}: view is {name}, factor is the fixed constant',
+                 got_name == name and abs(got - const) <= 1e-9 * const and again == (got_name, got) and pint_factor(u) == (name, got))
+    pre = W.snapshot(s); T, P = s.T, s.P
+    x = w.real('x', lo=0, lo_strict=True)
+    for u in BAD_UNITS:
+        for what, f in (('get_flow', lambda: s.get_flow(u, key)), ('set_flow', lambda: s.set_flow(x, u, key)),
+                        ('get_total_flow', lambda: s.get_total_flow(u)), ('set_total_flow', lambda: s.set_total_flow(x, u))):
+            r = attempt(f)
+            w.ensure(f'{what}({u!r}) is rejected', isinstance(r, Raised) and isinstance(r.e, (tmo.exceptions.DimensionError, ValueError, TypeError)),
+                     got=repr(r))
+    # the unit-aware indexer accessors reject units of another dimension as well
+    for what, f in (('imass.get_data(kmol/hr)', lambda: s.imass.get_data('kmol/hr', key)), ('ivol.get_data(kg/hr)', lambda: s.ivol.get_data('kg/hr', key)),
+                    ('imol.set_data(m3/hr)', lambda: s.imol.set_data(x, 'm3/hr', key)), ('imass.set_data(K)', lambda: s.imass.set_data(x, 'K', key))):
+        r = attempt(f)
+        w.ensure(f'{what} is rejected', isinstance(r, Raised), got=repr(r))
+    w.ensure('rejected calls change nothing', w.And(W.same_snapshot(w, pre, W.snapshot(s)), w.eq(s.T, T), w.eq(s.P, P)))
+    for u in ('lb/hr', 'L/min', 'mol/s'):
+        name, f = pint_factor(u)
+        ix = getattr(s, 'i' + name)
+        w.ensure(f'i{name}.get_data({u}) = factor * view', w.eq(ix.get_data(u, key), f * ix[key]))
+    w.canary('canary: get_flow(lb/hr) = get_flow(kg/hr)', w.eq(s.get_flow('lb/hr', key), s.get_flow('kg/hr', key)))
+
+
+# --------------------------------------------------------------------------- group 4: write through a view, read back
+
+WRITE_UNITS = ['kmol/hr', 'mol/s', 'kg/hr', 'lb/hr', 'g/min', 'm3/hr', 'L/min', 'gal/min']
+SAME_DIM = {'kmol/hr': 'mol/s', 'mol/s': 'kmol/hr', 'kg/hr': 'lb/hr', 'lb/hr': 'g/min', 'g/min': 'kg/hr', 'm3/hr': 'gal/min',
+            'L/min': 'm3/hr', 'gal/min': 'L/min'}
+
+
+def write_configs(tier):
+    out = []
+    kinds = ['l', 'gl'] if tier == 'quick' else ['l', 'g', 'gl', 'gls']
+    for k in kinds:
+        for u in WRITE_UNITS:
+            out.append({'name': f'kind={k};op=set_flow;units={u}', 'kind': k, 'op': 'set_flow', 'units': u})
+            out.append({'name': f'kind={k};op=set_total_flow;units={u}', 'kind': k, 'op': 'set_total_flow', 'units': u})
+        for op in ['imol[k]=', 'imass[k]=', 'ivol[k]=', 'imass[k]=new', 'ivol[k]=new', 'imass[k]=0', 'set_data(lb/hr)', 'set_data(L/min)',
+                   'F_mol=', 'F_mass=', 'F_vol=', 'F_mass=0', 'F_mol= on empty', 'F_mass= on empty', 'F_vol= on empty',
+                   'set_flow(array)', 'set_flow(2 IDs)']:
+            out.append({'name': f'kind={k};op={op}', 'kind': k, 'op': op, 'units': None})
+        if isinstance(KINDS[k], str):
+            for op in ['mol=array', 'mass=array', 'vol=array']:
+                out.append({'name': f'kind={k};op={op}', 'kind': k, 'op': op, 'units': None})
+        else:
+            for op in ["ms['l'].imass[k]=", "ms['l'].ivol[k]=", "ms['l'].F_mass=", "imass['l']=array"]:
+                out.append({'name': f'kind={k};op={op}', 'kind': k, 'op': op, 'units': None})
+    return out
+
+
+FUNCS_WRITE = ['thermosteam._stream:Stream.set_flow', 'thermosteam._multi_stream:MultiStream.set_flow', 'thermosteam._stream:Stream.set_total_flow',
+               'thermosteam._stream:Stream.F_mol', 'thermosteam._stream:Stream.F_mass', 'thermosteam._stream:Stream.F_vol',
+               'thermosteam._stream:Stream.mol', 'thermosteam._stream:Stream.mass', 'thermosteam._stream:Stream.vol',
+               'thermosteam.base.dictionary_view:DictionaryView.__setitem__', 'thermosteam.base.dictionary_view:MassFlowDict.input',
+               'thermosteam.base.dictionary_view:VolumetricFlowDict.input', 'thermosteam.indexer:Indexer.set_data',
+               'thermosteam.indexer:ChemicalIndexer.__setitem__', 'thermosteam.indexer:MaterialIndexer.__setitem__',
+               'thermosteam._multi_stream:MultiStream.__getitem__']
+
+
+@group('C11/write_read', configs=write_configs, functions=FUNCS_WRITE, assumptions=ASSUME)
+def write_read(w, cfg):
+    W.reset_caches()
+    op = cfg['op']
+    empty = 'on empty' in op
+    s, _ = mk(w, 's', cfg['kind'], 'A', 'empty' if empty else 'diag')
+    multi = isinstance(s, tmo.MultiStream)
+    IDs = s.chemicals.IDs
+    ph = 'l' if multi else s.phase
+    key = (ph, 'Water') if multi else 'Water'      # 'diag': (first phase, Water) is stored; in 'gl' (l, Water) is a new entry
+    if 'new' in op:
+        key = (ph, 'Ethanol') if multi else 'Ethanol'
+        if not multi: pass
+    kpos = IDs.index(key[1] if multi else key)
+    observe(w, s, 'before', units=())               # fills every cache
+    pre = W.snapshot(s); T, P = s.T, s.P
+    old = observe_raw(s)
+    x = w.real('x', lo=0, lo_strict=True)
+    MW = s.chemicals.MW
+    V = lambda p, ID: 1000. * V_expected(w, s, ID, p, T, P)
+    rows = [p for p, _ in W.rows_of(s)]
+    Fmol = w.total(old.values())
+    Fmass = w.total(float(MW[IDs.index(ID)]) * n for (p, ID), n in old.items())
+    Fvol = w.total(V(p, ID) * n for (p, ID), n in old.items() if not _is_zero(n))
+
+    def now(p, ID):
+        return observe_raw(s)[p, ID]
+
+    def only_changed(keys):
+        new = observe_raw(s)
+        return w.And(*[w.eq(new[k], old[k]) for k in old if k not in keys])
+
+    def composition_kept(Fnew):
+        new = observe_raw(s)
+        # n_new / F_new = n_old / F_old, cross-multiplied
+        return w.And(*[w.eq(new[k] * Fmol, old[k] * w.total(new.values())) for k in old])
+
+    ckey = (ph, IDs[kpos])
+    if op == 'set_flow':
+        u = cfg['units']; name, f = pint_factor(u)
+        s.set_flow(x, u, key)
+        u2 = SAME_DIM[u]; f2 = pint_factor(u2)[1]
+        w.ensure('read back in the same unit returns the written value', w.eq(s.get_flow(u, key), x))
+        w.ensure('read back in another unit of the dimension returns value*factor', w.eq(s.get_flow(u2, key) * f, x * f2))
+        per = {'mol': 1., 'mass': float(MW[kpos]), 'vol': V(*ckey)}[name]
+        w.ensure('molar data = value / unit factor / (MW or 1000 V)', w.eq(now(*ckey) * per * f, x))
+        w.ensure('other entries, T, P unchanged', w.And(only_changed({ckey}), w.eq(s.T, T), w.eq(s.P, P)))
+        w.canary('canary: stored value = x', w.eq(now(*ckey), x + 1))
+    elif op == 'set_total_flow':
+        u = cfg['units']; name, f = pint_factor(u)
+        s.set_total_flow(x, u)
+        u2 = SAME_DIM[u]; f2 = pint_factor(u2)[1]
+        w.ensure('total read back in the same unit returns the written value', w.eq(s.get_total_flow(u), x))
+        w.ensure('total read back in another unit returns value*factor', w.eq(s.get_total_flow(u2) * f, x * f2))
+        w.ensure('composition unchanged when a total is set', composition_kept(None))
+        w.ensure('T, P unchanged', w.And(w.eq(s.T, T), w.eq(s.P, P)))
+        w.canary('canary: F_mol = x', w.eq(s.F_mol, x + Fmass + Fvol))
+    elif op in ('imol[k]=', 'imass[k]=', 'ivol[k]=', 'imass[k]=new', 'ivol[k]=new', 'imass[k]=0'):
+        name = op[1:op.index('[')]
+        val = 0. if op.endswith('=0') else x
+        getattr(s, 'i' + name)[key] = val
+        per = {'mol': 1., 'mass': float(MW[kpos]), 'vol': V(*ckey)}[name]
+        w.ensure('read back returns the written value', w.eq(getattr(s, 'i' + name)[key], val))
+        w.ensure('molar data = value / (MW or 1000 V)', w.eq(now(*ckey) * per, val))
+        w.ensure('other entries, T, P unchanged', w.And(only_changed({ckey}), w.eq(s.T, T), w.eq(s.P, P)))
+        w.canary('canary: stored value = x', w.eq(now(*ckey), x + 1))
+    elif op.startswith('set_data'):
+        u = op[9:-1]; name, f = pint_factor(u)
+        ix = getattr(s, 'i' + name)
+        ix.set_data(x, u, key)
+        per = {'mol': 1., 'mass': float(MW[kpos]), 'vol': V(*ckey)}[name]
+        w.ensure('get_data in the same unit returns the written value', w.eq(ix.get_data(u, key), x))
+        w.ensure('molar data = value / unit factor / (MW or 1000 V)', w.eq(now(*ckey) * per * f, x))
+        w.ensure('other entries, T, P unchanged', w.And(only_changed({ckey}), w.eq(s.T, T), w.eq(s.P, P)))
+        w.canary('canary: stored value = x', w.eq(now(*ckey), x + 1))
+    elif op in ('F_mol=', 'F_mass=', 'F_vol=', 'F_mass=0'):
+        name = op[:-1].rstrip('=')
+        val = 0. if op.endswith('=0') else x
+        setattr(s, name, val)
+        w.ensure('total read back returns the written value', w.eq(getattr(s, name), val))
+        if val is x:
+            w.ensure('composition unchanged when a total is set', composition_kept(None))
+        else:
+            w.ensure('a zero total empties the stream', w.And(*[w.eq(v, 0.) for v in observe_raw(s).values()]))
+        w.ensure('T, P unchanged', w.And(w.eq(s.T, T), w.eq(s.P, P)))
+        w.canary('canary: total unchanged', w.eq(getattr(s, name), {'F_mol': Fmol, 'F_mass': Fmass, 'F_vol': Fvol}[name] + x + 1))
+    elif empty:
+        name = op.split('=')[0]
+        r = attempt(lambda: setattr(s, name, x))
+        w.ensure('a non-zero total on an empty stream is rejected (undefined composition)', isinstance(r, Raised) and isinstance(r.e, AttributeError), got=repr(r))
+        w.ensure('and nothing changes', W.same_snapshot(w, pre, W.snapshot(s)))
+        w.canary('canary: accepted', not isinstance(r, Raised))
+    elif op in ('mol=array', 'mass=array', 'vol=array', 'set_flow(array)'):
+        xs = [w.real(f'x{i}', lo=0, lo_strict=True) for i in range(len(IDs))]
+        arr = np.array(xs, dtype=object if w.symbolic else float)
+        if op == 'set_flow(array)':
+            name = 'mass'; f = pint_factor('lb/hr')[1]
+            if multi: s.set_flow(arr, 'lb/hr', (ph, ...))
+            else: s.set_flow(arr, 'lb/hr')
+            back = s.get_flow('lb/hr', (ph, ...)) if multi else s.get_flow('lb/hr')
+        else:
+            name = op.split('=')[0]; f = 1.
+            setattr(s, name, arr)
+            back = getattr(s, name)
+        for i, ID in enumerate(IDs):
+            per = {'mol': 1., 'mass': float(MW[i]), 'vol': V(ph, ID)}[name]
+            w.ensure(f'{ID}: read back returns the written value', w.eq(back[i], xs[i]))
+            w.ensure(f'{ID}: molar data = value / factor', w.eq(now(ph, ID) * per * f, xs[i]))
+        w.ensure('other phases, T, P unchanged', w.And(only_changed({(ph, ID) for ID in IDs}), w.eq(s.T, T), w.eq(s.P, P)))
+        w.canary('canary: stored value = x', w.eq(now(ph, IDs[0]), xs[0] + 1))
+    elif op == 'set_flow(2 IDs)':
+        x2 = w.real('x2', lo=0, lo_strict=True)
+        k2 = (ph, ('Water', 'Ethanol')) if multi else ('Water', 'Ethanol')
+        s.set_flow([x, x2], 'gal/min', k2)
+        f = pint_factor('gal/min')[1]
+        back = s.get_flow('gal/min', k2)
+        w.ensure('read back returns the written values', w.And(w.eq(back[0], x), w.eq(back[1], x2)))
+        w.ensure('molar data = value / factor / 1000 V', w.And(w.eq(now(ph, 'Water') * V(ph, 'Water') * f, x), w.eq(now(ph, 'Ethanol') * V(ph, 'Ethanol') * f, x2)))
+        w.ensure('other phases, T, P unchanged', w.And(only_changed({(ph, 'Water'), (ph, 'Ethanol')}), w.eq(s.T, T), w.eq(s.P, P)))
+        w.canary('canary: stored value = x', w.eq(now(ph, 'Water'), x + 1))
+    elif op in ("ms['l'].imass[k]=", "ms['l'].ivol[k]="):
+        name = 'mass' if 'imass' in op else 'vol'
+        sub = s['l']
+        getattr(sub, 'i' + name)['Water'] = x
+        per = {'mass': float(MW[kpos]), 'vol': V('l', 'Water')}[name]
+        w.ensure('phase sub-stream: read back returns the written value', w.eq(getattr(sub, 'i' + name)['Water'], x))
+        w.ensure('the multi-phase views show the value written through the phase sub-stream',
+                 w.And(w.eq(getattr(s, 'i' + name)['l', 'Water'], x), w.eq(now('l', 'Water') * per, x)))
+        w.ensure('other entries, T, P unchanged', w.And(only_changed({('l', 'Water')}), w.eq(s.T, T), w.eq(s.P, P)))
+        observe(w, sub, 'sub-stream', units=('lb/hr',))
+        w.canary('canary: stored value = x', w.eq(now('l', 'Water'), x + 1))
+    elif op == "ms['l'].F_mass=":
+        sub = s['l']
+        sub.F_mass = x
+        w.ensure('phase sub-stream: total read back', w.eq(sub.F_mass, x))
+        w.ensure('the multi-phase mass view of that phase sums to the value', w.eq(s.imass['l'].sum(), x))
+        w.ensure('other phases unchanged', only_changed({('l', ID) for ID in IDs}))
+        observe(w, sub, 'sub-stream', units=('lb/hr',))
+        w.canary('canary: total = x + 1', w.eq(sub.F_mass, x + 1))
+    elif op == "imass['l']=array":
+        xs = [w.real(f'x{i}', lo=0, lo_strict=True) for i in range(len(IDs))]
+        s.imass['l'] = np.array(xs, dtype=object if w.symbolic else float)
+        back = s.imass['l']
+        for i, ID in enumerate(IDs):
+            w.ensure(f'{ID}: read back returns the written value', w.eq(back[i], xs[i]))
+            w.ensure(f'{ID}: molar data = value / MW', w.eq(now('l', ID) * float(MW[i]), xs[i]))
+        w.ensure('other phases unchanged', only_changed({('l', ID) for ID in IDs}))
+        w.canary('canary: stored value = x', w.eq(now('l', IDs[0]), xs[0] + 1))
+    else:
+        raise RuntimeError(op)
+    observe(w, s, 'after', units=('mol/s', 'lb/hr', 'gal/min'))
+
+
+def observe_raw(s):
+    """{(phase, ID): molar flow} of the raw sparse rows (zero when not stored)."""
+    IDs = s.chemicals.IDs
+    return {(ph, ID): sv.dct.get(k, 0.) for ph, sv in W.rows_of(s) for k, ID in enumerate(IDs)}
